@@ -7,7 +7,7 @@ prop="${3:-$(python3 -c "import json;print(json.load(open('$d/meta.json'))['prop
 wt=/tmp/wt-s-$id
 git -C /repo worktree remove --force $wt 2>/dev/null
 git -C /repo worktree add -q --detach $wt HEAD || exit 2
-if ! git -C $wt apply $PWD/$d/patch.diff; then echo "$id patch does not apply"; git -C /repo worktree remove --force $wt; exit 2; fi
+if ! git -C $wt apply $PWD/$d/patch.diff 2>/dev/null && ! (git -C $wt apply -3 $PWD/$d/patch.diff >/dev/null 2>&1 && git -C $wt reset -q); then echo "$id patch does not apply"; git -C /repo worktree remove --force $wt; exit 2; fi
 res=$(tools/check_at $wt $prop --tier $tier 2>&1); rc=$?
 git -C /repo worktree remove --force $wt; rm -rf /tmp/check_at/_tmp_wt-s-$id
 sigs=$(echo "$res" | grep "^  $prop|" | sed 's/^  //' | head -4 | tr '\n' ';')
